@@ -78,6 +78,9 @@ func backendProp(b backendSpec, meaning string) propFunc {
 			c.runResolutionSiblings(r, "resolution.siblings", inPkgs("glsl"), nil)
 			r.floor("resolution.siblings", 4)
 		}
+		r.Clauses = append(r.Clauses, typeTextClause)
+		c.runTypeByText(r, "type.bytext", inPkgs(b.Name))
+		r.floor("type.renderedNames", 10)
 		r.Clauses = append(r.Clauses, recursionDepthClause)
 		c.runRecursionDepth(r, "recursion.depth", inPkgs(b.Name))
 		r.floor("recursion.depth", 1)
